@@ -33,7 +33,10 @@ def main():
                 bad.append({"kind": "eccentricity", "N": N, "lmax": lmax, "what": "degrees %s" % sorted(res.keys())})
                 continue
             for l in range(2, lmax + 1):
-                tf = getattr(importlib.import_module("TidalPy.tides.eccentricity_funcs.orderl%d" % l), "eccentricity_funcs_trunc%d" % N)
+                tf = getattr(importlib.import_module("TidalPy.tides.eccentricity_funcs.orderl%d" % l), "eccentricity_funcs_trunc%d" % N, None)
+                if tf is None:
+                    bad.append({"kind": "eccentricity", "N": N, "lmax": lmax, "l": l, "what": "the lookup offers truncation %d for degree %d but no such table is published (orderl%d has no eccentricity_funcs_trunc%d)" % (N, l, l, N)})
+                    continue
                 ref = getattr(tf, "py_func", tf)(e)
                 same = set(ref.keys()) == set(res[l].keys()) and all(
                     set(ref[p].keys()) == set(res[l][p].keys()) and all(coeffs(ref[p][q]) == coeffs(res[l][p][q]) for q in ref[p]) for p in ref)
